@@ -12,7 +12,6 @@
 (* which TLC can only do for the small constants of MC_Writer.             *)
 (*  apalache-mc check --cinit=ConstInit --inv=IndInv --length=0            *)
 (*  apalache-mc check --cinit=ConstInit --init=IndInit --inv=IndInv --length=1 *)
-(* and WriterIntProof.tla is the TLAPS proof of the same two obligations.   *)
 (***************************************************************************)
 EXTENDS Integers, WriterIntOps
 CONSTANTS
@@ -43,9 +42,11 @@ Emit(len, flushOk) ==
      ELSE IF left < req /\ ~flushOk THEN UNCHANGED <<written, blen, autoflush>>   \* flush()? failed
      ELSE LET w0 == IF left < req THEN 0 ELSE written
               b0 == IF left < req THEN 0 ELSE blen
-              b1 == BwBlen(b0, len) IN
-          /\ written' = EmitNextW(Cap, TLen, written, blen, len, flushOk)
-          /\ blen' = EmitNextB(Cap, TLen, written, blen, len, flushOk)
+              b1 == BwBlen(b0, len)
+              b2 == BwBlen(b1, TLen) IN
+          /\ written' = EmitNextC(Cap, TLen, written, blen, len, flushOk)[1]
+          /\ blen' = EmitNextC(Cap, TLen, written, blen, len, flushOk)[2]
+          /\ b2 = blen'
           /\ autoflush' = (autoflush \/ BwAuto(b0, len) \/ BwAuto(b1, TLen))
 \* io.rs:115-120
 Flush(ok) == /\ IF ok THEN written' = 0 /\ blen' = 0 ELSE UNCHANGED <<written, blen>>
